@@ -21,7 +21,7 @@ func init() {
 	engine.Register(&engine.Property{
 		ID:    "C14",
 		Level: "exploration",
-		Rule: "Dawgs of: ALL 2^15 subsets of the words of length <= 3 over {a,b} (exhaustive), the fixed families (a node with k children for k in {0,1,2,26,127,128,129,255,256} at the root, below a prefix, with the empty word, with distinct tails, with final children; unary words giving 127/128/129 and 255/256/257 nodes and ids), the boundary table (all binary words of length 16 = 65536 words, minus one, plus one word created last so that ids beyond 65535 survive; 126..129 and 254..257 words; wide fans over distinct tails so that link targets have indices beyond 127 and 255; two levels of wide fans; thorough: all two-byte words in 3 nodes and 65535/65536/65537 nodes), and seeded sets over alphabets of 1..256 bytes with up to 5000 words. " +
+		Rule: "Dawgs of: ALL 2^15 subsets of the words of length <= 3 over {a,b} (exhaustive; thorough adds all 2^13 subsets of the words of length <= 2 over {a,b,c}), the fixed families (a node with k children for k in {0,1,2,26,127,128,129,255,256} at the root, below a prefix, with the empty word, with distinct tails, with final children; unary words giving 127/128/129 and 255/256/257 nodes and ids), the boundary table (all binary words of length 16 = 65536 words, minus one, plus one word created last so that ids beyond 65535 survive; 126..129 and 254..257 words; wide fans over distinct tails so that link targets have indices beyond 127 and 255; two levels of wide fans; thorough: all two-byte words in 3 nodes and 65535/65536/65537 nodes), and seeded sets over alphabets of 1..256 bytes with up to 5000 words. " +
 			"Each Dawg is encoded with GobEncode, decoded with GobDecode into a fresh Dawg (and for every 3rd case into a Dawg that already holds other words) and sent through encoding/gob; each copy is compared with the reference model (NumberOfWords, Lookup rank of every member, non-members, structure walk with numWords, node count by accessor and by header), with the node graph of the original (up to the numbering of the ids, which is only recorded), on seeded searches, and re-encoded (bytes must be identical). " +
 			"non-trivial = a set with >= 2 words whose minimal automaton has fewer nodes than its trie (links to shared nodes are what the index table of the encoding is for); distinct = by construction (exhaustive) / hash of the word list",
 		Assumptions: []string{
@@ -406,34 +406,44 @@ func boundaries() []boundary {
 
 func run(c *engine.Ctx) {
 	// 1. exhaustive subsets
-	u := c12.Universe15()
-	const blocks = 64
-	per := (1 << 15) / blocks
-	label := "all 2^15 subsets of the 15 words of length<=3 over {a,b}"
-	for blk := 0; blk < blocks; blk++ {
-		blk := blk
-		c.Unit(fmt.Sprintf("subsets15/%02d", blk), func() {
-			nt := 0
-			rg := engine.NewRng(uint64(31 + blk))
-			for mask := blk * per; mask < (blk+1)*per; mask++ {
-				set := c12.SubsetOf(u, mask)
-				if !roundTrip(c, label, fmt.Sprintf("subsets15|mask=%d", mask), set, []byte("ab"), rg, mask, 1, false) {
-					if c.Stopped() {
-						return
+	type sweep struct {
+		name, alphabet string
+		maxLen, blocks int
+		thorough       bool
+	}
+	for _, sw := range []sweep{{"subsets15", "ab", 3, 64, false}, {"subsets13", "abc", 2, 16, true}} {
+		if sw.thorough && !c.Thorough() {
+			continue
+		}
+		sw := sw
+		u := refdawg.Universe([]byte(sw.alphabet), sw.maxLen)
+		per := (1 << uint(len(u))) / sw.blocks
+		label := fmt.Sprintf("all 2^%d subsets of the %d words of length<=%d over an alphabet of %d letters", len(u), len(u), sw.maxLen, len(sw.alphabet))
+		for blk := 0; blk < sw.blocks; blk++ {
+			blk := blk
+			c.Unit(fmt.Sprintf("%s/%02d", sw.name, blk), func() {
+				nt := 0
+				rg := engine.NewRng(uint64(31 + blk))
+				for mask := blk * per; mask < (blk+1)*per; mask++ {
+					set := c12.SubsetOf(u, mask)
+					if !roundTrip(c, label, fmt.Sprintf("%s|mask=%d", sw.name, mask), set, []byte(sw.alphabet), rg, mask, 1, false) {
+						if c.Stopped() {
+							return
+						}
+						continue
 					}
-					continue
+					if nontrivial(set) {
+						nt++
+					}
 				}
-				if nontrivial(set) {
-					nt++
+				c.NTDistinct(nt)
+				c.Obs("exhaustive_subsets_roundtripped", per)
+				if blk == 0 {
+					c.Obs("exhaustive:"+label, 1)
+					c.Sample(sw.name, map[string]interface{}{"universe": refdawg.QuoteList(u, 20), "example": c12.SubsetOf(u, 0x1234).Quoted(20)})
 				}
-			}
-			c.NTDistinct(nt)
-			c.Obs("exhaustive_subsets_roundtripped", per)
-			if blk == 0 {
-				c.Obs("exhaustive:"+label, 1)
-				c.Sample("subsets15", map[string]interface{}{"universe": refdawg.QuoteList(u, 20), "example": c12.SubsetOf(u, 0x1234).Quoted(20)})
-			}
-		})
+			})
+		}
 	}
 
 	// 2. fixed families
